@@ -167,8 +167,63 @@ fn judge(c: &Case, cls: &mut Classifier) -> Verdict {
     Ok(())
 }
 
+/// Signing requests related to one another (the same key with a digest that differs in one bit, the same digest
+/// with a key that differs in one bit, key and digest swapped) made one after the other on one thread, the first
+/// one again at the end: a signature is a function of (key, digest) and of nothing signed before.
+#[derive(Clone, Debug, Serialize, Deserialize)]
+pub struct HistCase {
+    pub steps: Vec<Case>,
+}
+
+fn gen_history(tape: Vec<u8>) -> HistCase {
+    let mut u = U::new(&tape);
+    let key = gen_valid_scalar(&mut u);
+    let digest = gen_digest(&mut u);
+    let case = |k: &[u8; 32], d: &[u8; 32]| Case { key_hex: hex_lower(k), digest_hex: hex_lower(d) };
+    let mut steps = vec![case(&key, &digest)];
+    for _ in 0..2 + u.below(3) {
+        let (mut k, mut d) = (key, digest);
+        match u.below(5) {
+            0 => d[u.below(32)] ^= 1 << u.below(8),
+            1 => {
+                k[1 + u.below(31)] ^= 1 << u.below(8);
+                if !secp::is_valid_secret(&k) {
+                    k = key;
+                    d[31] ^= 1;
+                }
+            }
+            2 => {
+                if secp::is_valid_secret(&digest) {
+                    k = digest;
+                    d = key;
+                } else {
+                    d = gen_digest(&mut u);
+                }
+            }
+            3 => d = gen_digest(&mut u),
+            _ => k = gen_valid_scalar(&mut u),
+        }
+        steps.push(case(&k, &d));
+    }
+    steps.push(case(&key, &digest));
+    HistCase { steps }
+}
+
+fn judge_history(c: &HistCase, cls: &mut Classifier) -> Verdict {
+    let mut scratch = Classifier::default();
+    for (i, s) in c.steps.iter().enumerate() {
+        judge(s, &mut scratch).map_err(|mut e| {
+            e.note = format!("step {i} of a history of {} related signing requests made one after the other on one thread: {}", c.steps.len(), e.note);
+            e
+        })?;
+    }
+    cls.label("history");
+    cls.nontrivial(&c.steps.iter().map(|s| (s.key_hex.clone(), s.digest_hex.clone())).collect::<Vec<_>>());
+    Ok(())
+}
+
 pub fn run(ctx: &mut Ctx) {
-    ctx.rule = "key from the C04 scalar strategy x digest from {0,1,n-1,n,n+1,2^256-1,2^255,uniform >= n,uniform}. Oracle: range checks, independent ECDSA verification and public-key recovery, sign == try_sign == second call, and for digests < n equality with an RFC 6979 reference (HMAC-SHA256 DRBG written from the RFC, low-s normalisation with parity flip). Non-trivial: not the pinned unit-test key; distinct by (key, digest).".into();
+    ctx.rule = "key from the C04 scalar strategy x digest from {0,1,n-1,n,n+1,2^256-1,2^255,uniform >= n,uniform}. Oracle: range checks, independent ECDSA verification and public-key recovery, sign == try_sign == second call, and for digests < n equality with an RFC 6979 reference (HMAC-SHA256 DRBG written from the RFC, low-s normalisation with parity flip). Histories: 4-6 related requests (digest or key differing in one bit, key and digest swapped, fresh ones) and the first one again, one after the other on one thread, each judged by the same oracle. Non-trivial: not the pinned unit-test key; distinct by (key, digest).".into();
     ctx.assumptions = vec!["for digests >= n RFC 6979 equality is not claimed (the property restricts it to digests < n)".into()];
     ctx.replay_known_and_regressions(&replay);
     let n = ctx.tier.pick(60_000, 600_000);
@@ -184,6 +239,7 @@ pub fn run(ctx: &mut Ctx) {
         judge,
     );
     let total = ctx.cls.evaluations;
+    ctx.run_prop("history", ctx.tier.pick(3000, 50_000), || crate::gen::tape(400).prop_map(gen_history), judge_history);
     ctx.floor("parity-0", total, 0.2);
     ctx.floor("parity-1", total, 0.2);
     ctx.floor("reference-s-was-high", total, 0.2);
@@ -193,6 +249,7 @@ pub fn run(ctx: &mut Ctx) {
 pub fn replay(sub: &str, case: &Value) -> Option<Verdict> {
     match sub {
         "sign" => Some(replay_as::<Case>(case, judge)),
+        "history" => Some(replay_as::<HistCase>(case, judge_history)),
         _ => None,
     }
 }
